@@ -61,17 +61,21 @@ def unload(path, name):
 
 def strat_chain(tier):
     level = st.fixed_dictionaries({"pre_block": st.booleans(), "how": st.sampled_from(["yield", "yield", "yield_tuple", "sync", "made"]), "nosource": st.sampled_from([False, False, False, True]),
-                                   "handler": st.sampled_from(["none", "none", "none", "reraise", "catch"]), "post_block": st.booleans()})
+                                   "handler": st.sampled_from(["none", "none", "none", "reraise", "catch"]), "post_block": st.booleans(),
+                                   "deco": st.sampled_from(["none", "none", "none", "dedupe", "alru", "aretry1", "aretry2", "mad"])})
     maxd = 8 if tier == "quick" else 40
     return st.fixed_dictionaries({"levels": st.lists(level, min_size=1, max_size=maxd), "raise_at": st.integers(0, maxd), "raise_via_helper": st.booleans(),
                                   "raise_after_block": st.booleans()})
+
+
+WRAPPER_TASK = ("alru", "aretry1", "aretry2")     # decorators whose wrapper is a task level of its own (a generator in asynq/tools.py)
 
 
 def effective_levels(case):
     """a level compiled from a string always awaits the next level with a plain yield"""
     d = len(case["levels"])
     r = min(case["raise_at"], d - 1)
-    return [dict(lv, handler="none", how="yield", pre_block=False, post_block=False) if lv.get("nosource") and i < r else lv
+    return [dict(lv, handler="none", how="yield", pre_block=False, post_block=False, deco="none") if lv.get("nosource") and i < r else dict(lv, deco=lv.get("deco", "none"))
             for i, lv in enumerate(case["levels"])]
 
 
@@ -79,7 +83,8 @@ def chain_source(case):
     levels = effective_levels(case)
     d = len(levels)
     r = min(case["raise_at"], d - 1)
-    src = ["import asynq", "from asynq import asynq as A", "from asynq.batching import DebugBatchItem", "STACKS = {}", "LINES = {}", "NOSOURCE_FIXUPS = []", "",
+    src = ["import asynq", "from asynq import asynq as A, make_async_decorator", "from asynq.tools import deduplicate, alru_cache, aretry", "from asynq.batching import DebugBatchItem", "STACKS = {}", "LINES = {}", "NOSOURCE_FIXUPS = []", "",
+           "def _mad(fn):", "    def wrapper(*a, **k):", "        return fn.asynq(*a, **k)", "    return make_async_decorator(fn, wrapper, 'mad')", "",
            "class HExc(Exception):", "    pass", "", "def boom():", "    raise HExc('boom')", ""]
     for i, lv in enumerate(levels):
         name = "lvl_%02d_" % i
@@ -94,6 +99,9 @@ def chain_source(case):
             src.append("NOSOURCE_FIXUPS.append((_ns, %r))" % nxt)
             src.append("")
             continue
+        deco = {"dedupe": "@deduplicate()", "alru": "@alru_cache()", "aretry1": "@aretry(HExc, max_tries=1, sleep=0)", "aretry2": "@aretry(HExc, max_tries=2, sleep=0)", "mad": "@_mad"}.get(lv.get("deco", "none"))
+        if deco:
+            src.append(deco)      # a decorator stack: the level is reached through a library wrapper
         src.append("@A()")
         src.append("def %s():" % name)
         src.append("    if 0: yield  # every level is a generator function (a plain function runs inside asynq's own wrapper frame)")
@@ -178,12 +186,24 @@ def check_chain(case, ctx):
                     viol.append(("C18.glue", "%s: traceback frames (generated functions only) are %r, expected one per task level in call order: %r" % (desc, collapsed, want)))
                 elif frames[-1][1] != (boom_line if case["raise_via_helper"] else raise_line) or (case["raise_via_helper"] and [f for f in frames if f[0] == want[-2]][-1][1] != raise_line):
                     viol.append(("C18.glue", "%s: the traceback does not end at the raising line (frames %r, raising line %d)" % (desc, frames[-2:], raise_line)))
+                # each library wrapper that is a task level contributes exactly one frame, in the raw traceback and in asynq's extractor
+                raw_tools, tb = 0, err.__traceback__
+                while tb is not None:
+                    if tb.tb_frame.f_code.co_filename.replace("\\", "/").endswith("asynq/tools.py"):
+                        raw_tools += 1
+                    tb = tb.tb_next
+                want_tools = sum(1 for i in range(r + 1) if levels[i].get("deco") in WRAPPER_TASK)
+                if raw_tools != want_tools:
+                    viol.append(("C18.glue", "%s: the traceback has %d frames of library wrapper tasks, the chain has %d such levels (decorators %r)" % (desc, raw_tools, want_tools, [levels[i].get("deco") for i in range(r + 1)])))
                 # asynq's own extractor (which hides asynq's frames) must list the same user frames
                 import asynq.debug as D
                 try:
                     ex = [(e[2], e[1]) for e in D.extract_tb(err.__traceback__) if e[0] == path or e[0].startswith("<generated lvl_")]
                     if [k for k, _ in itertools.groupby([n for n, _ in ex])] != want:
                         viol.append(("C18.glue", "%s: debug.extract_tb lists the generated functions %r, expected %r" % (desc, [n for n, _ in ex], want)))
+                    ex_tools = sum(1 for e in D.extract_tb(err.__traceback__) if e[0].replace("\\", "/").endswith("asynq/tools.py"))
+                    if ex_tools != want_tools:
+                        viol.append(("C18.glue", "%s: debug.extract_tb lists %d frames of library wrapper tasks, the chain has %d such levels" % (desc, ex_tools, want_tools)))
                     if not isinstance(D.format_tb(err.__traceback__), list):
                         viol.append(("C18.format_error", "%s: debug.format_tb did not return a list" % desc))
                     import logging
@@ -210,7 +230,21 @@ def check_chain(case, ctx):
                 want_stack.append("lvl_%02d_" % j)
                 if j < i and levels[j]["how"] == "made":
                     want_stack.append("mk_%02d_" % j)
-            if stack is None or len(stack) != len(want_stack) or any(nm not in stack[j] for j, nm in enumerate(want_stack)):
+            # tasks of the library itself (the wrapper generators of alru_cache / aretry in asynq/tools.py, the plain-function
+            # wrapper of a synchronously called deduplicated function) are creators too: they may appear, the generated
+            # functions must appear completely and in order
+            is_lib = lambda e: "/asynq/decorators.py" in e.replace("\\", "/") or "/asynq/tools.py" in e.replace("\\", "/")
+            ok = stack is not None
+            k = 0
+            for e in (stack or []):
+                if k < len(want_stack) and want_stack[k] in e and not is_lib(e):
+                    k += 1
+                elif is_lib(e) or (k > 0 and want_stack[k - 1] in e):
+                    continue        # a library task, or the library's wrapper task of the level just listed (it carries the function's name)
+                else:
+                    ok = False
+                    break
+            if not ok or k != len(want_stack) or want_stack[-1] not in stack[-1]:
                 viol.append(("C18.stack", "%s: format_asynq_stack() inside level %d returned %r, expected that task and each task that created it, outermost first" % (desc, i, stack)))
                 break
         if sorted(mod.STACKS) != list(range(r + 1)):
@@ -220,6 +254,7 @@ def check_chain(case, ctx):
         ctx.label("reraise-on-path", any(levels[i]["handler"] == "reraise" for i in range(r)))
         ctx.label("caught", catcher >= 0)
         ctx.label("task-created-by-a-finished-helper-on-path", any(levels[i]["how"] == "made" for i in range(r)))
+        ctx.label("decorator-stack-on-path", any(levels[i].get("deco", "none") != "none" for i in range(r + 1)))
         ctx.label("sync-call-on-path", any(levels[i]["how"] == "sync" for i in range(r)))
         ctx.label("level-without-source", any(levels[i].get("nosource") for i in range(r)))
         ctx.nontrivial(case, r >= 1 and catcher < 0)
@@ -234,8 +269,8 @@ def reduce_chain(case):
         if len(lv) > 1:
             yield dict(case, levels=lv[:i] + lv[i + 1:])
     for i in range(len(lv)):
-        for k, v in (("pre_block", False), ("post_block", False), ("handler", "none"), ("how", "yield"), ("nosource", False)):
-            if lv[i][k] != v:
+        for k, v in (("pre_block", False), ("post_block", False), ("handler", "none"), ("how", "yield"), ("nosource", False), ("deco", "none")):
+            if lv[i].get(k, v) != v:
                 yield dict(case, levels=lv[:i] + [dict(lv[i], **{k: v})] + lv[i + 1:])
     if case["raise_at"] > 0:
         yield dict(case, raise_at=case["raise_at"] - 1)
